@@ -905,7 +905,12 @@ package core
 //@   requires[C20+C13.breaker_invariant_slide] breakerOK(b)
 //@   requires[C20+C13.breaker_slide_time_moves_forward] nanos(now) >= nanos(b.updated) && nanos(now) <= clock()
 //@   ensures[C20+C13.breaker_slide_keeps_invariant] breakerOK(b)
-//@   ensures[C20.breaker_slide_updates_clock] nanos(b.updated) == nanos(now)
+// "limits ... recover": the window never lags the clock by a whole tick (so polling cannot hold it back), and a window's
+// worth of quiet time clears every bucket
+//@   ensures[C20.breaker_window_lags_less_than_a_tick] nanos(b.updated) <= nanos(now) && nanos(now) - nanos(b.updated) < floordiv(b.interval, b.ticks)
+//@   ensures[C20.breaker_elapsed_time_only_consumed_by_sliding] nanos(b.updated) != old(nanos(b.updated)) ==> nanos(now) - old(nanos(b.updated)) >= floordiv(b.interval, b.ticks)
+//@   ensures[C20.breaker_recovers_after_a_quiet_window] nanos(now) - old(nanos(b.updated)) >= b.interval ==> forall(k, int, 0 <= k && k < len(b.counts) ==> b.counts[k] == 0)
+//@   loop 1: invariant[C20.breaker_slide_clears_prefix] 0 <= i && forall(k, int, 0 <= k && k < i && k < len(b.counts) ==> b.counts[k] == 0)
 //@ func (*OutboundBreaker).Do
 //@   assume-entry breakerOK(b)
 //@   ensures[C20+C13.breaker_do_keeps_invariant] breakerOK(b)
